@@ -71,10 +71,17 @@ func NewResponseFilterWriter(filters []ResponseFilter, gz *gzipResponseWriter) *
 // WriteHeader wraps underlying WriteHeader method and
 // compresses if filters are satisfied.
 func (r *ResponseFilterWriter) WriteHeader(code int) {
+	if code >= 100 && code <= 199 && code != http.StatusSwitchingProtocols {
+		// an informational response: the final header, which the
+		// decision depends on, is still to come
+		r.ResponseWriter.WriteHeader(code)
+		return
+	}
+
 	// Determine if compression should be used or not, once: a later
-	// call (a final header after an informational one, or a handler
-	// writing the header twice) must take the way the first one took,
-	// it cannot undo the Content-Encoding the client was sent.
+	// call (a handler writing the header twice, or after it wrote
+	// body bytes) must take the way the first one took, it cannot
+	// undo the Content-Encoding the client was sent.
 	if !r.statusCodeWritten {
 		r.shouldCompress = true
 		for _, filter := range r.filters {
@@ -83,13 +90,15 @@ func (r *ResponseFilterWriter) WriteHeader(code int) {
 				break
 			}
 		}
+		if r.shouldCompress {
+			// replace discard writer with ResponseWriter
+			if gzWriter, ok := r.gzipResponseWriter.Writer().(*gzip.Writer); ok {
+				gzWriter.Reset(r.ResponseWriter)
+			}
+		}
 	}
 
 	if r.shouldCompress {
-		// replace discard writer with ResponseWriter
-		if gzWriter, ok := r.gzipResponseWriter.Writer().(*gzip.Writer); ok {
-			gzWriter.Reset(r.ResponseWriter)
-		}
 		// use gzip WriteHeader to include and delete
 		// necessary headers
 		r.gzipResponseWriter.WriteHeader(code)
